@@ -316,6 +316,81 @@ theorem text_csv_same_view (wl : List Bytes) (t : Table) (label : Bytes)
       · have := hf 3 (by omega)
         simpa [csvStrings, hpos, hd] using this
 
+open Tab.Render in
+/-- **text_csv_same_view_summary** (the summary/geomean row, full strength): for the summary label
+and the per-column summaries of the cells view, on any texttab table and warning list: ToText's
+calls for the row never panic; the label is texttab cell (row, 0) and CSV field 0; and for every
+column `i` that has a summary entry `s`:
+ * if `s.hasSummary`, the geomean is the right-aligned texttab cell at `textStartCol i` and CSV
+   field `csvStartCol i` (scaled / unscaled spelling); if not, that CSV field is BLANK;
+ * CSV field `csvStartCol i + 1` (under "CI") is blank — whether or not there is a geomean;
+ * if `i > 0`, the summary delta (or "?") is the texttab cell at `textStartCol i + 3` — the column
+   the "vs base" header starts at — and CSV field `csvStartCol i + 2` (under "vs base"), the same
+   string, and CSV field `csvStartCol i + 3` (under "P") is blank.
+So text and CSV agree on which column holds the geomean and which the delta, in particular for
+columns WITHOUT a geomean (the C16-C seed breaks exactly the third clause). -/
+theorem text_csv_same_view_summary (wl : List Bytes) (t : Table) (label : Bytes)
+    (sums : List (Option SumCell)) (rowNo : Nat) (w : List Bytes) :
+    ∃ t', runOps t ([Op.row, Op.span 1 label []] ++ (sumColsOps wl 0 sums).2) = some t' ∧
+      mkCell t.row.curRow 0 label [] ∈ t'.cells ∧
+      (csvSumCols rowNo [label] w 0 sums).1.getD 0 [] = label ∧
+      ∀ i s, sums[i]? = some (some s) →
+        (s.hasSummary = true → mkCell t.row.curRow (textStartCol i) s.sumText [.right] ∈ t'.cells ∧
+          (csvSumCols rowNo [label] w 0 sums).1.getD (csvStartCol i) [] = s.sumCsv) ∧
+        (s.hasSummary = false → (csvSumCols rowNo [label] w 0 sums).1.getD (csvStartCol i) [] = []) ∧
+        (csvSumCols rowNo [label] w 0 sums).1.getD (csvStartCol i + 1) [] = [] ∧
+        (i > 0 →
+          mkCell t.row.curRow (textStartCol i + 3) (ratioStr s) (ratioOpts s) ∈ t'.cells ∧
+          (csvSumCols rowNo [label] w 0 sums).1.getD (csvStartCol i + 2) [] = ratioStr s ∧
+          (csvSumCols rowNo [label] w 0 sums).1.getD (csvStartCol i + 3) [] = []) := by
+  let t2 := (t.row).span 1 label []
+  have hcur : t2.curCol ≤ textStartCol 0 := by simp [t2, Table.span, Table.row, textStartCol]
+  obtain ⟨t', h1, h2, h3⟩ := sumCols_cells sums wl 0 t2 hcur
+  have hlab : mkCell t.row.curRow 0 label [] ∈ t2.cells := by
+    simp [t2, Table.span, Table.row, mkCell]
+  have hcsv := csvSumCols_fields rowNo sums [label] w 0 (by simp [csvStartCol])
+  refine ⟨t', ?_, ?_, ?_, ?_⟩
+  · rw [show [Op.row, Op.span 1 label []] ++ (sumColsOps wl 0 sums).2
+          = Op.row :: Op.span 1 label [] :: (sumColsOps wl 0 sums).2 from rfl,
+      runOps_cons, Table.step, Option.bind_some, runOps_cons, Table.step, Option.bind_some]
+    exact h1
+  · rw [h2]; exact List.mem_append_left _ hlab
+  · have := hcsv.1 0 (by simp)
+    simpa using this
+  · intro i s hi
+    obtain ⟨wl', hmem⟩ := sumPlacedRow_mem t2.curRow sums wl 0 i s hi
+    simp only [Nat.zero_add] at hmem
+    have hin : ∀ x ∈ sumPlaced t2.curRow wl' i s, x ∈ t'.cells := by
+      intro x hx; rw [h2]; exact List.mem_append_right _ (hmem x hx)
+    have hrow : t2.curRow = t.row.curRow := rfl
+    have hf := hcsv.2.2 i s hi
+    simp only [Nat.zero_add] at hf
+    have hgw : 2 ≤ csvGroupWidth i := by unfold csvGroupWidth; split <;> omega
+    refine ⟨?_, ?_, ?_, ?_⟩
+    · intro hs
+      refine ⟨?_, ?_⟩
+      · rw [← hrow]; apply hin; unfold sumPlaced; simp [hs]
+      · have := hf 0 (by omega)
+        rw [Nat.add_zero] at this
+        rw [this]; unfold sumTail; by_cases h : i > 0 <;> simp [h, hs]
+    · intro hs
+      have := hf 0 (by omega)
+      rw [Nat.add_zero] at this
+      rw [this]; unfold sumTail; by_cases h : i > 0 <;> simp [h, hs]
+    · rw [hf 1 (by omega)]; unfold sumTail
+      by_cases h : i > 0
+      · simp [h]
+      · cases s.hasSummary <;> simp [h]
+    · intro hpos
+      have hgw4 : csvGroupWidth i = 4 := by
+        unfold csvGroupWidth
+        have : (i == 0) = false := by simp; omega
+        simp [this]
+      refine ⟨?_, ?_, ?_⟩
+      · rw [← hrow]; apply hin; unfold sumPlaced; simp [hpos]
+      · rw [hf 2 (by omega)]; unfold sumTail; simp [hpos]
+      · rw [hf 3 (by omega)]; unfold sumTail; simp [hpos]
+
 /-! ### keyheader_partition -/
 
 open Tab.KeyHeader in
